@@ -59,6 +59,15 @@ Theorem C16_image_or_unknown : forall mode strict evt dst src nargs sc,
 Proof. exact image_or_unknown. Qed.
 Print Assumptions C16_image_or_unknown.
 
+(* ... read from the receiver's side: a NON-EMPTY state reported after a transition is always the
+   image of the state the device is really in, whatever the device and the transport did *)
+Theorem C16_reported_state_is_real : forall mode strict evt dst src nargs sc,
+  In mode modes -> In (evt, dst) task_events -> In src o2_states ->
+  let ob := run_root (mk_root mode strict evt dst src nargs) sc in
+  o_final ob <> [] -> o_final ob = image mode (o_dev ob).
+Proof. exact reported_state_is_real. Qed.
+Print Assumptions C16_reported_state_is_real.
+
 (* ---- clause 3: success is reported only if the device reached the destination ---- *)
 (* All seven events of the task state machine (since the repair of finding C16-c, FairMQ RECOVER
    and GO_ERROR, which are not implemented and request nothing from the device, report an error). *)
